@@ -46,6 +46,14 @@ def _kinds():
             "invalid": "x",
             "probe": ("4", 4.0),
         },
+        "scale": {
+            "field": lambda: __import__("cincoconfig").IntField(validator=lambda cfg, v: v * 10),
+            "other": lambda: __import__("cincoconfig").IntField(),
+            "norm": lambda x: int(x) * 10,
+            "raw": [1, "2"],
+            "invalid": "x",
+            "probe": ("4", 40),
+        },
         "str": {
             "field": lambda: StringField(transform_case="lower", transform_strip=True, max_len=3),
             "other": lambda: StringField(),
@@ -69,7 +77,24 @@ DICT_KINDS = {
 }
 
 
-def _dict_field():
+DICT_KINDS["str-any"] = {
+    "keys": ["a", " A ", "b"],
+    "vals": [0, False, 1, True, 2, V.F(2.0)],
+    "knorm": lambda k: k.strip().lower(),
+    "vnorm": lambda v: v,
+    "invalid_val": None,
+    "probe": ((" Z ", "7"), ("z", "7")),
+}
+
+
+def _dict_field(kind="str-int"):
+    from cincoconfig import DictField, StringField
+    if kind == "str-any":
+        return DictField(key_field=StringField(transform_case="lower", transform_strip=True, max_len=3))
+    return _dict_field_int()
+
+
+def _dict_field_int():
     from cincoconfig import DictField, IntField, StringField
     return DictField(key_field=StringField(transform_case="lower", transform_strip=True, max_len=3),
                      value_field=IntField(min=0, max=9))
@@ -117,7 +142,7 @@ class DictWorld:
         from cincoconfig import Schema, DictField, StringField, IntField
         self.k = DICT_KINDS[kind]
         schema = Schema()
-        schema.d = _dict_field()
+        schema.d = _dict_field(kind)
         schema.e = DictField(key_field=StringField(), value_field=IntField())
         self.schema = schema
         self.cfg = schema()
@@ -204,6 +229,10 @@ def list_ops(kind):
         ops.append(["getitem", i])
     ops += [["sort", False], ["sort", True], ["reverse"], ["clear"], ["len"], ["list"], ["iter"],
             ["reversed"], ["eq_list"], ["bool"]]
+    if kind == "scale":
+        # the item validator is deliberately not idempotent: what "the normalised form" of an item taken from a typed list
+        # of the same field is, is not determined by the statement, so those argument shapes are left out for this kind
+        ops = [op for op in ops if not any(isinstance(a, str) and a in ("proxy-same", "proxy-othercfg") for a in op[1:3])]
     return ops
 
 
@@ -262,7 +291,12 @@ def apply_list(target, op, norm, resolve):
     name = op[0]
     dec = lambda s: V.dec(s, resolve)  # noqa
     nv = (lambda x: x) if norm is None else norm
-    nit = (lambda it: it) if norm is None else (lambda it: [norm(x) for x in it])
+    def nit(it):
+        if norm is None:
+            return it
+        if getattr(it, "item_field", None) is getattr(norm, "same_field", object()):
+            return list(it)        # a typed list of the very same item field already holds normal forms
+        return [norm(x) for x in it]
     if name == "append":
         return target.append(nv(dec(op[1])))
     if name == "insert":
@@ -448,9 +482,9 @@ def model_states(container, kind, maxlen):
 # jobs
 # ---------------------------------------------------------------------------------------------
 def bounds(tier):
-    return {"list_kinds": ["int", "str", "float"] if tier == "thorough" else ["int", "str"],
-            "list_maxlen": {"int": 5 if tier == "thorough" else 3, "str": 6 if tier == "thorough" else 3, "float": 4},
-            "dict_kinds": ["str-int"], "dict_maxlen": 3 if tier == "thorough" else 2}
+    return {"list_kinds": ["int", "str", "float", "scale"] if tier == "thorough" else ["int", "str", "scale"],
+            "list_maxlen": {"int": 5 if tier == "thorough" else 3, "str": 6 if tier == "thorough" else 3, "float": 4, "scale": 2},
+            "dict_kinds": ["str-int", "str-any"], "dict_maxlen": 3 if tier == "thorough" else 2}
 
 
 def jobs(tier):
@@ -510,6 +544,7 @@ def _check_transition(ctx, container, kind, hist, op):
     k = w.k
     if container == "list":
         norm = lambda x: k["norm"](x)  # noqa
+        norm.same_field = w.proxy.item_field
         app = apply_list
         nm = norm
     else:
@@ -613,7 +648,10 @@ def _typed_ok(container, w, res):
             return False
         del res[nk]
         try:
-            res["q"] = k["invalid_val"]
+            if k["invalid_val"] is None:
+                res["key-too-long"] = 1        # any value is fine for this kind: probe with an invalid key instead
+            else:
+                res["q"] = k["invalid_val"]
         except Exception:
             return True
         return False
